@@ -364,7 +364,14 @@ class ClientWorldObjectManager:
 
         actually_updated_props = set()
 
-        if old_region_handle != new_region_handle:
+        # An object that got moved to a region we don't track only lives in the global
+        # lookup dict. No region state owns it, so there's nothing to untrack or re-link,
+        # it just has to be tracked again if it shows up in a region we know about.
+        was_tracked = old_region_state is not None and old_region_state.lookup_localid(old_local_id) is obj
+
+        if not was_tracked:
+            pass
+        elif old_region_handle != new_region_handle:
             # The object just changed regions, we have to remove it from the old one.
             # Our LocalID will most likely change because, well, our locale changed.
             old_region_state.untrack_object(obj)
@@ -384,7 +391,7 @@ class ClientWorldObjectManager:
 
         actually_updated_props |= obj.update_properties(new_properties)
 
-        if new_region_handle != old_region_handle:
+        if new_region_handle != old_region_handle or not was_tracked:
             # Region just changed to this region, we should have untracked it before
             # so mark it tracked on this region. This should implicitly pick up any
             # orphans and handle parent ID changes.
